@@ -631,21 +631,11 @@ func rulePool3(c *Ctx) {
 					}
 					c.Touch(fn)
 					key := c.KeyAt(fn, "store to "+core.FieldOwner(fa))
-					// the object must come straight from the pool getter
-					okOrigin := true
-					for _, o := range core.Origins(fa.X, false) {
-						call, isCall := o.(*ssa.Call)
-						if !isCall {
-							okOrigin = false
-							continue
-						}
-						f := core.StaticCallee(call)
-						if f == nil || !returnsPoolGet(c.P, f) {
-							okOrigin = false
-						}
-					}
-					c.Check(okOrigin, key, c.Pos(in), "written object was just taken from its pool (constructor)",
-						"a field of a pooled value is overwritten outside its pool constructor: every holder of that object sees the change")
+					// the function must play the constructor role for the written object: it takes the
+					// object out of its pool (or allocates it) itself and hands it out
+					why, okOrigin := constructsObject(c.P, fn, fa.X)
+					c.Check(okOrigin, key, c.Pos(in), "written object was just taken from its pool (constructor): "+why,
+						"a field of a pooled value is overwritten outside its pool constructor ("+why+"): every holder of that object sees the change")
 				case *ssa.Alloc:
 					if !x.Heap || !isValueNamed(x.Type().(*types.Pointer).Elem(), "Null", "Boolean", "Ternary") {
 						continue
@@ -663,17 +653,152 @@ func rulePool3(c *Ctx) {
 	}
 }
 
-func returnsPoolGet(p *core.Prog, f *ssa.Function) bool {
-	if f.Blocks == nil {
-		return false
-	}
-	for _, o := range core.ReturnedValues(f, 0) {
-		call, ok := o.(*ssa.Call)
-		if !ok || !isPoolGet(p, call) {
-			return false
+// objectOrigins expands a pointer to a pooled object to the values it may be:
+// core.Origins plus the value half of a comma-ok type assertion
+// (`p, ok := pool.Get().(*T)`).
+func objectOrigins(v ssa.Value) []ssa.Value {
+	var out []ssa.Value
+	seen := map[ssa.Value]bool{}
+	var walk func(v ssa.Value)
+	walk = func(v ssa.Value) {
+		for _, o := range core.Origins(v, false) {
+			if seen[o] {
+				continue
+			}
+			seen[o] = true
+			if e, ok := o.(*ssa.Extract); ok && e.Index == 0 {
+				if ta, ok := e.Tuple.(*ssa.TypeAssert); ok && ta.CommaOk {
+					walk(ta.X)
+					continue
+				}
+			}
+			out = append(out, o)
 		}
 	}
-	return true
+	walk(v)
+	return out
+}
+
+// constructsObject decides whether fn is, by role, the pool constructor of the
+// object obj points to: every origin of obj is taken out of a sync.Pool or
+// freshly allocated by fn itself (directly, through a helper that does nothing
+// but take an object out / allocate it, or through a callee that returns only
+// fresh objects), and fn hands that object out as a result. A frame-local copy of a struct value (value receiver, `v := *p`)
+// is private memory and may be written by anyone.
+func constructsObject(p *core.Prog, fn *ssa.Function, obj ssa.Value) (string, bool) {
+	var taken []ssa.Value
+	var whys []string
+	for _, o := range objectOrigins(obj) {
+		switch x := o.(type) {
+		case *ssa.Alloc:
+			if !x.Heap {
+				whys = append(whys, "frame-local copy")
+				continue
+			}
+			whys = append(whys, "fresh allocation")
+			taken = append(taken, o)
+		case *ssa.Call:
+			if isPoolGet(p, x) {
+				whys = append(whys, "sync.Pool.Get")
+				taken = append(taken, o)
+				continue
+			}
+			if f := core.StaticCallee(x); f != nil {
+				if takesOutOnly(p, f, map[*ssa.Function]bool{}) {
+					whys = append(whys, "take-out helper "+p.FnRef(f))
+					taken = append(taken, o)
+					continue
+				}
+				// a callee whose every return is fresh (R-POOL-1's fixpoint: pool objects nobody else
+				// holds yet): finishing such an object before handing it out is still construction
+				if freshness(p).fresh[f] {
+					whys = append(whys, "fresh result of "+p.FnRef(f))
+					taken = append(taken, o)
+					continue
+				}
+			}
+			return "the object is the result of " + callDesc(p, x) + ", which neither takes it out of a pool nor returns only fresh objects", false
+		case *ssa.Parameter:
+			return "the object is parameter " + x.Name(), false
+		default:
+			return fmt.Sprintf("the object is %s, not taken from a pool or allocated here", describeOrigin(o)), false
+		}
+	}
+	if len(whys) == 0 {
+		return "no origin", false
+	}
+	// handed out: each taken object is among the values fn returns
+	returned := map[ssa.Value]bool{}
+	for i := 0; i < fn.Signature.Results().Len(); i++ {
+		for _, r := range core.Returns(fn) {
+			if i < len(r.Results) {
+				for _, o := range objectOrigins(r.Results[i]) {
+					returned[o] = true
+				}
+			}
+		}
+	}
+	for _, o := range taken {
+		if !returned[o] {
+			return "the object is taken out (" + strings.Join(dedup(whys), ", ") + ") but not returned by this function", false
+		}
+	}
+	return strings.Join(dedup(whys), ", ") + "; returned to the caller", true
+}
+
+func describeOrigin(o ssa.Value) string {
+	switch x := o.(type) {
+	case *ssa.UnOp:
+		return "a load of " + addrDesc(x.X)
+	case *ssa.Extract:
+		return "a tuple element"
+	}
+	return strings.TrimPrefix(fmt.Sprintf("%T", o), "*ssa.") + " " + o.Name()
+}
+
+// takesOutOnly: f does nothing to pooled objects but take them out — every
+// value it returns is a (*sync.Pool).Get result, a fresh allocation or the
+// result of another such helper, and f stores to no field of a pooled type.
+// (A function that also initialises the object is a constructor: what it
+// returns is a finished value, and a later store to it is a mutation.)
+func takesOutOnly(p *core.Prog, f *ssa.Function, busy map[*ssa.Function]bool) bool {
+	if f.Blocks == nil || busy[f] || f.Signature.Results().Len() != 1 {
+		return false
+	}
+	busy[f] = true
+	defer delete(busy, f)
+	for _, b := range f.Blocks {
+		for _, in := range b.Instrs {
+			if st, ok := in.(*ssa.Store); ok {
+				if fa, ok := st.Addr.(*ssa.FieldAddr); ok && isValueNamed(fa.X.Type(), "String", "Integer", "Float", "Datetime") {
+					return false
+				}
+			}
+		}
+	}
+	n := 0
+	for _, r := range core.Returns(f) {
+		for _, o := range objectOrigins(r.Results[0]) {
+			n++
+			switch x := o.(type) {
+			case *ssa.Alloc:
+				if !x.Heap {
+					return false
+				}
+			case *ssa.Call:
+				if isPoolGet(p, x) {
+					continue
+				}
+				g := core.StaticCallee(x)
+				if g == nil || !takesOutOnly(p, g, busy) {
+					return false
+				}
+			default:
+				return false
+			}
+		}
+	}
+	return n > 0
 }
 
 // ---------------------------------------------------------------------------
